@@ -371,6 +371,9 @@ theorem frame_takePending (a : Agent) (now tid : Nat) : Frame a (a.takePending n
       (Frame.of_fields rfl rfl rfl rfl rfl (fun _ h => (List.mem_filter.mp h).1))
   · exact frame_invalidatePending a now
 
+theorem frame_answered (a : Agent) (v : Option Nat) : Frame a { a with answeredNomination := v } :=
+  Frame.of_fields rfl rfl rfl rfl rfl (fun _ h => h)
+
 theorem frame_handleSuccess (a : Agent) (now : Nat) (m : Msg) (l r : Cand) (src : Nat) :
     Frame a (a.handleSuccess now m l r src).1 := by
   unfold Agent.handleSuccess
@@ -380,16 +383,26 @@ theorem frame_handleSuccess (a : Agent) (now : Nat) (m : Msg) (l r : Cand) (src 
   dsimp only at *
   split
   · exact h0
-  · split
+  · rename_i pd
+    split
     · exact h0
     · split
       · exact h0
       · refine h0.trans ?_
         refine Frame.trans ?_ (frame_modPair _ _ _)
+        rename_i p _
+        have h2 := frame_modPair a1 p.id fun p =>
+          { p with state := .succeeded, gResp := true, gRespUC := p.gRespUC || pd.useCand }
+        generalize (a1.modPair p.id fun p =>
+          { p with state := .succeeded, gResp := true, gRespUC := p.gRespUC || pd.useCand }) = a2 at *
+        refine h2.trans ?_
         repeat' split
         all_goals first
-          | exact Frame.trans (frame_modPair _ _ _) (frame_select _ _)
+          | exact Frame.refl _
+          | exact frame_select _ _
+          | exact (frame_answered _ _).trans (frame_select _ _)
           | exact frame_modPair _ _ _
+          | exact (frame_select _ _).trans (frame_modPair _ _ _)
 
 theorem frame_ctlHandleRequest (a : Agent) (now : Nat) (m : Msg) (l r : Cand) :
     Frame a (a.ctlHandleRequest now m l r).1 := by
@@ -447,9 +460,12 @@ def cldNominated (a : Agent) (m : Msg) (id : Nat) : Agent × List Out :=
           | some sp =>
             if sp.id == id then false
             else if m.nom.isSome then true
+            else if a.lastNomination.isSome then false
             else !needsPrioCheck a.cfg || a.pairPrio sp < a.pairPrio p
         if sw then a.select id else (a, [])
-      else (a.modPair id fun p => { p with nomOnSuccess := true, deferredNom := m.nom }, [])
+      else if m.nom.isSome || p.deferredNom.isNone then
+        (a.modPair id fun p => { p with nomOnSuccess := true, deferredNom := m.nom }, [])
+      else (a, [])
   else (a, [])
 
 def cldTrigger (a : Agent) (now : Nat) (l r : Cand) (id : Nat) : Agent × List Out :=
